@@ -59,6 +59,9 @@ func NewEngine(repo, verif string) *Engine {
 		lemmas: map[string]*Lemma{}, specFuncs: map[string]*SpecFunc{}, smtFuns: map[string]smtSig{}, smtSorts: map[string]string{}, ghostSorts: map[string]string{},
 		models: map[string]modelFn{}}
 	registerModels(e)
+	// prelude functions of the Int mode that specifications may use
+	e.smtFuns["tdiv"] = smtSig{[]string{"Int", "Int"}, "Int"}
+	e.smtFuns["tmod"] = smtSig{[]string{"Int", "Int"}, "Int"}
 	return e
 }
 
